@@ -45,6 +45,16 @@ def _alarm(signum, frame):
     raise CaseTimeout(' < '.join('%s:%d %s' % (f.filename.split('/')[-1], f.lineno, f.name) for f in reversed(traceback.extract_stack(frame)[-9:])))
 
 
+class _Awaitable:
+    """what an aiohttp request object, a dask Future or `agen.asend(x)` look like to a caller: awaitable, but neither an
+    asyncio/tornado Future nor a coroutine object"""
+    def __init__(self, coro):
+        self._coro = coro
+
+    def __await__(self):
+        return self._coro.__await__()
+
+
 class Ctx:
     """consumer factories bound to one run"""
 
@@ -83,7 +93,7 @@ class Ctx:
                     raise F.InjectedFault((nid, k))
                 log.add('END', nid, x, k, c)
             return sink
-        if kind == 'coro':
+        if kind in ('coro', 'awaitable'):
             async def body(x, k, c):
                 log.add('START', nid, x, k, c)
                 d = self._svc(spec, k)
@@ -99,6 +109,8 @@ class Ctx:
                 state['k'] += 1
                 c = cause()
                 log.add('CALLED', nid, x, k, c)
+                if kind == 'awaitable':
+                    return _Awaitable(body(x, k, c))     # neither a Future nor a coroutine object: just __await__
                 return body(x, k, c)
             return sink
 
